@@ -25,24 +25,25 @@ func (s *Server) DocumentSymbol(
 	}
 
 	var symbols []any
+	mapper := newColumnMapper(doc)
 
 	for _, tx := range journal.Transactions {
-		symbols = append(symbols, transactionToSymbol(tx))
+		symbols = append(symbols, transactionToSymbol(tx, mapper))
 	}
 
 	for _, dir := range journal.Directives {
-		symbols = append(symbols, directiveToSymbol(dir))
+		symbols = append(symbols, directiveToSymbol(dir, mapper))
 	}
 
 	for _, inc := range journal.Includes {
-		symbols = append(symbols, includeToSymbol(inc))
+		symbols = append(symbols, includeToSymbol(inc, mapper))
 	}
 
 	return symbols, nil
 }
 
-func includeToSymbol(inc ast.Include) protocol.DocumentSymbol {
-	rng := *astRangeToProtocol(inc.Range)
+func includeToSymbol(inc ast.Include, mapper *columnMapper) protocol.DocumentSymbol {
+	rng := *mapper.toProtocol(inc.Range)
 	return protocol.DocumentSymbol{
 		Name:           "include " + inc.Path,
 		Kind:           protocol.SymbolKindModule,
@@ -51,9 +52,9 @@ func includeToSymbol(inc ast.Include) protocol.DocumentSymbol {
 	}
 }
 
-func transactionToSymbol(tx ast.Transaction) protocol.DocumentSymbol {
+func transactionToSymbol(tx ast.Transaction, mapper *columnMapper) protocol.DocumentSymbol {
 	name := formatTransactionName(tx)
-	rng := *astRangeToProtocol(tx.Range)
+	rng := *mapper.toProtocol(tx.Range)
 
 	return protocol.DocumentSymbol{
 		Name:           name,
@@ -71,7 +72,7 @@ func formatTransactionName(tx ast.Transaction) string {
 	return date
 }
 
-func directiveToSymbol(dir ast.Directive) protocol.DocumentSymbol {
+func directiveToSymbol(dir ast.Directive, mapper *columnMapper) protocol.DocumentSymbol {
 	var name string
 	var kind protocol.SymbolKind
 
@@ -94,7 +95,7 @@ func directiveToSymbol(dir ast.Directive) protocol.DocumentSymbol {
 		kind = protocol.SymbolKindVariable
 	}
 
-	rng := *astRangeToProtocol(dir.GetRange())
+	rng := *mapper.toProtocol(dir.GetRange())
 	return protocol.DocumentSymbol{
 		Name:           name,
 		Kind:           kind,
